@@ -365,6 +365,13 @@ func (s *peerSim) introMirror(p *chaosPeer) uint32  { return peerMirror[p] }
 // ---- C24 ------------------------------------------------------------------------
 
 func runBookkeeping(c *sim.Ctx) {
+	if c.T.Chance("book-direct", 1, 3) {
+		// one third of the runs offer the bookkeeping object alone arbitrary event sequences (bookdirect.go)
+		c.Count("mode.direct")
+		runBookkeepingDirect(c)
+		return
+	}
+	c.Count("mode.network")
 	s := newPeerSim(c, 0)
 	defer s.close()
 	t := c.T
@@ -537,6 +544,21 @@ func (s *peerSim) checkBookkeeping() {
 			return
 		}
 	}
+	if s.checkDerivedMaps(snap, s.prev, s.n.dm.VerifGetByListenAddr) {
+		return
+	}
+	s.prev = got
+	c.Count("probe.bookkeeping_compared")
+	c.State(uint64(len(snap.Conns)), uint64(len(snap.Mirrors)), uint64(len(snap.ListenAddrs)), uint64(len(s.pend)))
+}
+
+// checkDerivedMaps compares the four secondary maps with what the connection list of the same snapshot implies.
+// It returns true when it recorded a violation.
+func (s *peerSim) checkDerivedMaps(snap daemon.VerifConnSnapshot, prev map[string]daemon.VerifConn, getByListen func(string) (int, int)) bool {
+	return checkDerivedMaps(s.c, snap, prev, getByListen)
+}
+
+func checkDerivedMaps(c *sim.Ctx, snap daemon.VerifConnSnapshot, prev map[string]daemon.VerifConn, getByListen func(string) (int, int)) bool {
 	// derived maps
 	ipc := map[string]int{}
 	mir := map[uint32]map[string]uint16{}
@@ -551,7 +573,7 @@ func (s *peerSim) checkBookkeeping() {
 			}
 			if _, dup := mir[x.Mirror][ip]; dup {
 				c.Violate("two-introduced-share-ip-mirror", "dup", "two introduced connections share IP %s and mirror %x", ip, x.Mirror)
-				return
+				return true
 			}
 			mir[x.Mirror][ip] = x.ListenPort
 		}
@@ -564,35 +586,35 @@ func (s *peerSim) checkBookkeeping() {
 			las[la] = append(las[la], x.Addr)
 		}
 		// transitions
-		if pv, ok := s.prev[x.Addr]; ok && pv.GnetID == x.GnetID && x.State != pv.State {
+		if pv, ok := prev[x.Addr]; ok && pv.GnetID == x.GnetID && x.State != pv.State {
 			legal := (pv.State == daemon.ConnectionStatePending && x.State == daemon.ConnectionStateConnected) ||
 				(pv.State == daemon.ConnectionStateConnected && x.State == daemon.ConnectionStateIntroduced)
 			if !legal {
 				c.Violate("illegal-state-transition", string(pv.State)+"->"+string(x.State), "connection %s went from %q to %q", x.Addr, pv.State, x.State)
-				return
+				return true
 			}
 		}
 	}
 	for ip, nExp := range ipc {
 		if snap.IPCounts[ip] != nExp {
 			c.Violate("ip-count", fmt.Sprintf("got%sexp", cmpSign(bigU(uint64(snap.IPCounts[ip])), bigU(uint64(nExp)))), "per-IP count of %s is %d, the node holds %d connections from it", ip, snap.IPCounts[ip], nExp)
-			return
+			return true
 		}
 	}
 	for ip, nGot := range snap.IPCounts {
 		if nGot != 0 && ipc[ip] == 0 {
 			c.Violate("ip-count", "stale", "per-IP count of %s is %d but no connection from it is held", ip, nGot)
-			return
+			return true
 		}
 	}
 	for m, x := range snap.Mirrors {
 		for ip, port := range x {
 			if ep, ok := mir[m][ip]; !ok {
 				c.Violate("mirror-registry", "stale-entry", "the IP+mirror registry lists (%s, %x) but no introduced connection has it", ip, m)
-				return
+				return true
 			} else if ep != port {
 				c.Violate("mirror-registry", "port", "the IP+mirror registry has port %d for (%s, %x), the connection has %d", port, ip, m, ep)
-				return
+				return true
 			}
 		}
 	}
@@ -600,18 +622,18 @@ func (s *peerSim) checkBookkeeping() {
 		for ip := range x {
 			if _, ok := snap.Mirrors[m][ip]; !ok {
 				c.Violate("mirror-registry", "missing-entry", "introduced connection (%s, mirror %x) is missing from the IP+mirror registry", ip, m)
-				return
+				return true
 			}
 		}
 	}
 	if len(ids) != len(snap.GnetIDs) {
 		c.Violate("id-map", "size", "connection-id map has %d entries for %d connected connections", len(snap.GnetIDs), len(ids))
-		return
+		return true
 	}
 	for id, a := range ids {
 		if snap.GnetIDs[id] != a {
 			c.Violate("id-map", "entry", "connection-id map maps %d to %q, the connection is %s", id, snap.GnetIDs[id], a)
-			return
+			return true
 		}
 	}
 	for la, as := range snap.ListenAddrs {
@@ -626,22 +648,20 @@ func (s *peerSim) checkBookkeeping() {
 				kind = "empty-listen-address-key"
 			}
 			c.Violate("listen-address-map", kind, "listen-address map has %v under %s, the connections held give %v", as, key, exp)
-			return
+			return true
 		}
-		if n, nils := s.n.dm.VerifGetByListenAddr(la); nils > 0 {
+		if n, nils := getByListen(la); nils > 0 {
 			c.Violate("listen-address-map", "nil-entry", "looking up listen address %s yields %d entries of which %d are nil", la, n, nils)
-			return
+			return true
 		}
 	}
 	for la, exp := range las {
 		if !sameStringSet(snap.ListenAddrs[la], exp) {
 			c.Violate("listen-address-map", "missing", "listen-address map has %v under %s, the connections held give %v", snap.ListenAddrs[la], la, exp)
-			return
+			return true
 		}
 	}
-	s.prev = got
-	c.Count("probe.bookkeeping_compared")
-	c.State(uint64(len(snap.Conns)), uint64(len(snap.Mirrors)), uint64(len(snap.ListenAddrs)), uint64(len(s.pend)))
+	return false
 }
 
 func sameStringSet(a, b []string) bool {
